@@ -167,6 +167,15 @@ def work(item):
                     res["lvm_skipped"] += 1
                     prog = None
                     continue
+                except (ArithmeticError, ValueError) as e:
+                    # typically the consequence of an out-of-extent read (which the LVM answers with 0): report that access
+                    if tr.oob:
+                        name, idx, shp, mode = tr.oob[0]
+                        res["failures"].append(dict(kind="out-of-extent", array=name, index=list(idx), extent=list(shp) if shp else None, mode=mode,
+                                                    text=f"{itype} kernel {k} entities={ents} codes={codes}: {mode} of {name}{list(idx)} outside its extent {shp}"))
+                    else:
+                        res["failures"].append(dict(kind="arithmetic-error", text=f"{itype} kernel {k} entities={ents} codes={codes}: {type(e).__name__}: {e} while interpreting the kernel"))
+                    break
                 res["lvm_runs"] += 1
                 res["accesses"] += tr.n
                 if tr.oob:
